@@ -470,13 +470,17 @@ def tlc_witnesses(ctx):
 
 def tlc_faults(ctx, only=None):
     """Model self-test for C07: each seeded design fault must violate the invariant that names it."""
-    expect = {"nocopy": "InputsNeverMutated", "overwrite": "MergeIsUnionOrConflict", "dropgroup": "MergeIsUnionOrConflict"}
+    expect = {"nocopy": "InputsNeverMutated", "overwrite": "MergeIsUnionOrConflict", "dropgroup": "MergeIsUnionOrConflict",
+              # a builder rule keeping what it resolved for the language before; a post-processing step keeping what it recorded
+              # for the package before (only visible when the unrelated package is ordered BEFORE one that stays)
+              "rulememo": "LanguageIndependent", "carry": "UnrelatedInputIrrelevant"}
+    rels = {"carry": '{"extra"}'}
     res = {}
     for fault, inv in sorted(expect.items()):
         if only and fault != only:
             continue
         r = run_tlc_expect_violation(ctx, "Pipeline2MC", "Pipeline2MC.cfg", inv, workers=4, timeout=900,
-                                     constants={"Faults": '{"%s"}' % fault, "Universe": 2, "Rels": '{"same", "langs"}'})
+                                     constants={"Faults": '{"%s"}' % fault, "Universe": 2, "Rels": rels.get(fault, '{"same", "langs"}')})
         if not r["violated"]:
             raise core.Inconclusive("model self-test: fault %s did not violate %s" % (fault, inv))
         res[fault] = inv
